@@ -250,6 +250,27 @@ func famC15(rn *Runner) {
 	g := NewExprGen(r.Fork(), d, stdEnv())
 	n := rn.Scale(12000, 200000)
 	xmlDoc := `<r xmlns:p="urn:u1" xmlns="urn:d" a="1" xml:lang="en"><a id="x">1<b/>2</a><p:b>x</p:b><!-- c --><?p d?><c xmlns="">t</c></r>`
+	// documents nested past any limit a reader might think generous, whole and cut short
+	for _, depth := range []int{513, 600, 1025, 5000} {
+		for _, c := range []fuzzCase{
+			{"json", strings.Repeat("[", depth) + "1" + strings.Repeat("]", depth), ""},
+			{"json", strings.Repeat(`{"a":`, depth) + "1" + strings.Repeat("}", depth), ""},
+			{"json", strings.Repeat(`[{"a":`, depth/2) + "1" + strings.Repeat("}]", depth/2), ""},
+			{"json", strings.Repeat("[", depth) + "1" + strings.Repeat("]", depth/2), ""},
+			{"json", strings.Repeat("[", depth/2) + "1" + strings.Repeat("]", depth), ""},
+			{"xml", strings.Repeat("<a>", depth) + "1" + strings.Repeat("</a>", depth), ""},
+			{"xml", strings.Repeat("<a>", depth) + "1" + strings.Repeat("</a>", depth/2), ""},
+			{"html", strings.Repeat("<div>", depth) + "1" + strings.Repeat("</div>", depth), ""},
+			{"html", strings.Repeat("<b><i>", depth/2) + "1", ""},
+			{"exec", "string(/)", strings.Repeat("<a>", depth) + "1" + strings.Repeat("</a>", depth)},
+			{"exec", "count(//*[parent::*]) + count(//text()/ancestor-or-self::node()[1])", strings.Repeat("<a>", depth) + "1" + strings.Repeat("</a>", depth)},
+		} {
+			if c.entry == "exec" && depth > 700 {
+				continue
+			}
+			cases = append(cases, c)
+		}
+	}
 	for i := 0; i < n; i++ {
 		switch k := r.Intn(20); {
 		case k < 5:
